@@ -58,17 +58,14 @@ theorem cache_calcExpiresAtAfterRead_a0_pin (c_expiryCalculator_ExpireAfterRead_
 theorem cache_setExpiresAfterRead_c0_pin (expiresAfter : BitVec 64) :
     Gen.CacheRead.cache_setExpiresAfterRead_c0 expiresAfter = (BitVec.sle expiresAfter (0#64)) := by pin_tac Gen.CacheRead.cache_setExpiresAfterRead_c0
 
-theorem cache_setExpiresAfterRead_c1_pin (diff : BitVec 64) :
-    Gen.CacheRead.cache_setExpiresAfterRead_c1 diff = (BitVec.slt (0#64) diff) := by pin_tac Gen.CacheRead.cache_setExpiresAfterRead_c1
+theorem cache_setExpiresAfterRead_c1_pin (currentDuration : BitVec 64) (expiresAfter : BitVec 64) :
+    Gen.CacheRead.cache_setExpiresAfterRead_c1 currentDuration expiresAfter = (expiresAfter != currentDuration) := by pin_tac Gen.CacheRead.cache_setExpiresAfterRead_c1
 
 theorem cache_setExpiresAfterRead_a0_pin (n_ExpiresAt : BitVec 64) :
     Gen.CacheRead.cache_setExpiresAfterRead_a0 n_ExpiresAt = n_ExpiresAt := by pin_tac Gen.CacheRead.cache_setExpiresAfterRead_a0
 
 theorem cache_setExpiresAfterRead_a1_pin (expiresAt : BitVec 64) (nowNano : BitVec 64) :
     Gen.CacheRead.cache_setExpiresAfterRead_a1 expiresAt nowNano = (expiresAt - nowNano) := by pin_tac Gen.CacheRead.cache_setExpiresAfterRead_a1
-
-theorem cache_setExpiresAfterRead_a2_pin (currentDuration : BitVec 64) (expiresAfter : BitVec 64) :
-    Gen.CacheRead.cache_setExpiresAfterRead_a2 currentDuration expiresAfter = (OtterVerif.Gen.Xmath.Abs (expiresAfter - currentDuration)) := by pin_tac Gen.CacheRead.cache_setExpiresAfterRead_a2
 
 theorem cache_SetExpiresAfter_c0_pin (c_withExpiration : Bool) (expiresAfter : BitVec 64) :
     Gen.CacheRead.cache_SetExpiresAfter_c0 c_withExpiration expiresAfter = ((!c_withExpiration) || (BitVec.sle expiresAfter (0#64))) := by pin_tac Gen.CacheRead.cache_SetExpiresAfter_c0
@@ -261,10 +258,9 @@ theorem siteParams_pin : Gen.CacheRead.siteParams = [("deadlineAfter_c0", ["dura
   ("cache_calcExpiresAtAfterRead_c0", ["c_withExpiration"]),
   ("cache_calcExpiresAtAfterRead_a0", ["c_expiryCalculator_ExpireAfterRead_c_nodeToEntry_n_nowNano"]),
   ("cache_setExpiresAfterRead_c0", ["expiresAfter"]),
-  ("cache_setExpiresAfterRead_c1", ["diff"]),
+  ("cache_setExpiresAfterRead_c1", ["currentDuration", "expiresAfter"]),
   ("cache_setExpiresAfterRead_a0", ["n_ExpiresAt"]),
   ("cache_setExpiresAfterRead_a1", ["expiresAt", "nowNano"]),
-  ("cache_setExpiresAfterRead_a2", ["currentDuration", "expiresAfter"]),
   ("cache_SetExpiresAfter_c0", ["c_withExpiration", "expiresAfter"]),
   ("cache_SetExpiresAfter_c1", ["n_HasExpired_nowNano", "n__nil"]),
   ("cache_SetExpiresAfter_a0", ["c_clock_NowNano"]),
@@ -331,7 +327,7 @@ theorem shape_pin : Gen.CacheRead.shape = [("deadlineAfter", [1, 0, 0, 2, 0, 0])
   ("cache_getNodeQuietly", [1, 0, 1, 2, 0, 0]),
   ("cache_has", [0, 0, 0, 1, 0, 0]),
   ("cache_calcExpiresAtAfterRead", [1, 0, 1, 0, 0, 0]),
-  ("cache_setExpiresAfterRead", [2, 0, 3, 0, 0, 0]),
+  ("cache_setExpiresAfterRead", [2, 0, 2, 0, 0, 0]),
   ("cache_SetExpiresAfter", [2, 0, 2, 0, 0, 0]),
   ("cache_SetRefreshableAfter", [3, 0, 4, 0, 0, 0]),
   ("cache_calcExpiresAtAfterWrite", [3, 0, 4, 0, 0, 0]),
